@@ -16,10 +16,11 @@ pub struct Tier {
 
 pub fn tier_for(property: &str, tier: &str) -> Tier {
     let thorough = tier == "thorough";
-    let _ = property;
+    // K6/K7 (policies that try to set lease time / server identifier) matter to C10 and C13
+    let quick_cfgs = if property == "C10" || property == "C13" { vec!["K1", "K2", "K3", "K4", "K5", "K6", "K7"] } else { vec!["K1", "K2", "K3", "K4", "K5"] };
     if thorough {
         Tier {
-            spec_cfgs: vec!["K1", "K2", "K3", "K4", "K5"],
+            spec_cfgs: vec!["K1", "K2", "K3", "K4", "K5", "K6", "K7"],
             clients: 3,
             addrs: vec!["192.0.2.9", "192.0.2.10", "192.0.2.11", "198.51.100.10", "10.9.9.9"],
             ticks: vec![1, 150, 299, 300, 301, 30_000, 100_000],
@@ -30,7 +31,7 @@ pub fn tier_for(property: &str, tier: &str) -> Tier {
         }
     } else {
         Tier {
-            spec_cfgs: vec!["K1", "K2", "K3", "K4", "K5"],
+            spec_cfgs: quick_cfgs,
             clients: 2,
             addrs: vec!["192.0.2.9", "192.0.2.10", "192.0.2.11", "198.51.100.10", "10.9.9.9"],
             ticks: vec![1, 150, 299, 300, 301, 30_000],
@@ -128,6 +129,9 @@ pub fn run(property: &str, tier: &str, replay: Option<Value>) -> ! {
     rep.cov("exhaustive_scope", format!("all histories of length <= {} over the {}-operation alphabet, exact-state deduplicated", stats.depth_completed, alpha.ops.len()));
     rep.cov("next_level_partially_expanded", stats.capped);
     rep.cov("alphabet_ops", alpha.ops.len() as u64);
+    rep.cov("store_vs_told_divergent_transitions", stats.diverged_total);
+    rep.cov("consequence_search_steps", stats.consequence_steps);
+    rep.cov("told_rule", "the oracles read the lease store as the record of who holds what; independently the search keeps what the clients were told (every reply recorded as sent). On every transition the two must agree; where they do not, every continuation of <= 2 operations is executed from the real store and the reply-level clauses of C01/C09 are judged against what the clients were told");
     rep.cov("root_states", json!(deep_roots().iter().map(state_json).collect::<Vec<_>>()));
     rep.cov("states_per_depth", json!(stats.states_per_depth));
     rep.cov("outcome_classes", json!(stats.outcome_classes));
